@@ -10,7 +10,7 @@ import os
 import random
 import warnings
 
-from harness import fix, tlc, tracecheck
+from harness import alpha, fix, tlc, tracecheck
 
 
 def mods():
@@ -36,12 +36,19 @@ class World:
     def rand_ell(self):
         a = round(self.rnd.uniform(6.3e6, 6.4e6), 3)
         invf = round(self.rnd.uniform(150, 400), 6)
-        return ("rand", self.gc.Ellipsoid(a, invf))
+        return ("rand", alpha.build(self.gc.Ellipsoid, a, invf))
 
     def rand_prj(self):
         r = self.rnd
-        return ("rand", self.gc.Projection(float(r.randrange(100000, 1000001, 50000)), float(r.randrange(9000000, 10000001, 100000)),
-                                           r.choice([0.9996, 0.9999, 1.0, 0.999]), 6, -177))
+        return ("rand", alpha.build(self.gc.Projection, float(r.randrange(100000, 1000001, 50000)), float(r.randrange(9000000, 10000001, 100000)),
+                                    r.choice([0.9996, 0.9999, 1.0, 0.999]), 6, -177))
+
+    def rand_prj2(self):
+        """user-defined zone systems other than 6 degrees from -177: (zone width, central meridian of zone 1)"""
+        r = self.rnd
+        zw, cm1 = r.choice([(6, 0), (3, -177), (8, -176), (2, 141), (6, -177), (4, -178), (6, 3)])
+        return ("rand", alpha.build(self.gc.Projection, float(r.randrange(100000, 1000001, 50000)), float(r.randrange(9000000, 10000001, 100000)),
+                                    r.choice([0.9996, 0.9999, 1.0, 0.999]), zw, cm1))
 
     def get_ell(self, cls):
         return self.rand_ell() if cls == "rand" else (cls, self.ell[cls])
@@ -51,11 +58,12 @@ class World:
 
     # ---- alpha pieces ----
     def ell_rec(self, name, E):
-        return {"name": name, "a": fix.enc(float(E.semimaj)), "invf": fix.enc(float(E.inversef))}
+        a, invf = alpha.defn(E, "semimaj", "inversef")
+        return {"name": name, "a": fix.enc(a), "invf": fix.enc(invf)}
 
     def prj_rec(self, name, P):
-        return {"name": name, "fe": fix.enc(float(P.falseeast)), "fn": fix.enc(float(P.falsenorth)), "k0": fix.enc(float(P.cmscale)),
-                "zw": int(P.zonewidth), "cm1": int(P.initialcm), "isg": P is self.gc.isg}
+        fe, fn, k0, zw, cm1 = alpha.defn(P, "falseeast", "falsenorth", "cmscale", "zonewidth", "initialcm")   # as built, not as stored
+        return {"name": name, "fe": fix.enc(fe), "fn": fix.enc(fn), "k0": fix.enc(k0), "zw": int(zw), "cm1": int(cm1), "isg": P is self.gc.isg}
 
     def rounding_env(self, lat, E):
         """metric auxiliaries (DESIGN 3.7): longitude equivalent of the 0.05 mm output rounding of E and N"""
@@ -86,7 +94,6 @@ class World:
                 # projection is evaluated at - the conversion into the notation moves it by up to 1e-13 deg
                 mk = {"hp": an.dec2hpa, "gon": an.dec2gona, "dms": an.dec2dms, "ddm": an.dec2ddm}[args]
                 a_lat, a_lon = mk(lat), mk(lon)
-                from harness import alpha
                 dlat, dlon = alpha.angle_deg(a_lat), alpha.angle_deg(a_lon)
                 o["lat"], o["lon"] = fix.enc(dlat), fix.enc(dlon)
                 o["latf"], o["lonf"] = float(dlat), float(dlon)
@@ -194,7 +201,7 @@ class World:
         try:
             o = self.observe(lat, float(cm), zone, ell, prj)
             o["tri"] = list(tri)
-            o["n0"] = fix.enc(1.0 / (2.0 * float(ell[1].inversef) - 1.0))
+            o["n0"] = fix.enc(1.0 / (2.0 * alpha.defn(ell[1], "semimaj", "inversef")[1] - 1.0))
             ev["o"] = o
         except Exception as ex:
             ev["exc"] = "%s: %s" % (type(ex).__name__, str(ex)[:100])
@@ -212,7 +219,7 @@ class World:
             o = self.observe(lat, lon, zone, ell, prj)
             o["tri"] = list(tri)
             o["tdl"] = list(tdl)
-            o["n0"] = fix.enc(1.0 / (2.0 * float(ell[1].inversef) - 1.0))
+            o["n0"] = fix.enc(1.0 / (2.0 * alpha.defn(ell[1], "semimaj", "inversef")[1] - 1.0))
             ev["o"] = o
         except Exception as ex:
             ev["exc"] = "%s: %s" % (type(ex).__name__, str(ex)[:100])
@@ -225,7 +232,7 @@ class World:
         ev = {"k": "TMA", "exc": "", "tag": tag, "args": args}
         try:
             o = self.observe(lat, lon, zone, ell, prj, args)
-            o["n0"] = fix.enc(1.0 / (2.0 * float(ell[1].inversef) - 1.0))
+            o["n0"] = fix.enc(1.0 / (2.0 * alpha.defn(ell[1], "semimaj", "inversef")[1] - 1.0))
             ev["o"] = o
         except Exception as ex:
             ev["exc"] = "%s: %s" % (type(ex).__name__, str(ex)[:100])
